@@ -266,10 +266,11 @@ pub const FILES: &[&str] = &["Foo.kt", "SourceFile", SYNTHETIC, "Bar.java", "ü.
 /// identifier characters that are legal in every name slot of the grammar
 /// (no space, colon, parentheses, dot, line terminators, quote, arrow)
 const ID_START: &[&str] = &[
-    "a", "b", "x", "Z", "Q", "_", "$", "<", "é", "ü", "漢", "𝒳", "L", "I", "V",
+    "a", "b", "x", "Z", "Q", "_", "$", "<", "é", "ü", "漢", "𝒳", "L", "I", "V", "a", "b", "x", "@", "{", "\\", "/", "~", "\u{1f600}",
 ];
 const ID_CONT: &[&str] = &[
-    "a", "b", "x", "Z", "0", "1", "9", "_", "$", "<", ">", "-", "[", "]", "é", "漢", "𝒳", ";",
+    "a", "b", "x", "Z", "0", "1", "9", "_", "$", "<", ">", "-", "[", "]", "é", "漢", "𝒳", ";", "a", "b", "0", "\"", "\\", "/", "@", "{", "}", "!", "?", "*", "+", "=", "~", "^", "%", "&", "|", "'", "`",
+    "\u{a0}x", "\u{2028}y", "\u{1f600}", "\u{7f}",
 ];
 
 pub fn ident() -> impl Strategy<Value = String> {
@@ -284,9 +285,12 @@ pub fn ident() -> impl Strategy<Value = String> {
 
 /// long identifier (multi-byte LEB128 length prefixes in the cache: >127 and >16383 bytes)
 pub fn long_ident() -> impl Strategy<Value = String> {
+    // byte lengths at and around the LEB128 prefix boundaries (127/128, 255/256, 16383/16384) and multiples of 128
+    let exact = select(&[126usize, 127, 128, 129, 255, 256, 257, 384, 512, 1024][..]);
     prop_oneof![
-        9 => (128usize..420, select(ID_START)).prop_map(|(n, c)| format!("L{}", c.repeat(n))),
-        1 => (16384usize..16500, select(&["a", "é"][..])).prop_map(|(n, c)| format!("W{}", c.repeat(n))),
+        5 => (128usize..420, select(&["a", "b", "x", "Z", "_", "$", "é", "漢", "𝒳"][..])).prop_map(|(n, c)| format!("L{}", c.repeat(n))),
+        5 => (exact, select(&["a", "q", "Z"][..])).prop_map(|(n, c)| c.repeat(n)),
+        1 => (select(&[16382usize, 16383, 16384, 16385, 16500][..]), select(&["a", "b"][..])).prop_map(|(n, c)| c.repeat(n)),
     ]
 }
 
@@ -431,7 +435,8 @@ pub fn foreign(cfg: &GenCfg) -> BoxedStrategy<Option<String>> {
     .boxed()
 }
 pub fn file_name(cfg: &GenCfg) -> BoxedStrategy<String> {
-    pool_or(FILES, ident().prop_map(|s| format!("{s}.kt")), 100 - cfg.fresh, cfg.fresh, 0)
+    // the file name slot of the sourceFile JSON ends at the next double quote: names never contain their slot's delimiter
+    pool_or(FILES, ident().prop_map(|s| format!("{}.kt", s.replace('"', "q"))), 100 - cfg.fresh, cfg.fresh, 0)
 }
 
 pub fn method(cfg: &GenCfg) -> BoxedStrategy<Method> {
@@ -612,6 +617,34 @@ pub fn map_file(cfg: &GenCfg) -> BoxedStrategy<MapFile> {
                 out.push(b);
             }
             MapFile { prelude, blocks: out }
+        })
+        .boxed()
+}
+
+/// "Tall" profile: few classes with hundreds of member lines over a handful of obfuscated method names
+/// (long inline chains, hundreds of overloads of one name, many methods per class).
+pub fn tall_file(cfg: &GenCfg, max_items: usize) -> BoxedStrategy<MapFile> {
+    let cfg = GenCfg { max_items, max_blocks: 3, fresh: 4, long: 0, ..cfg.clone() };
+    vec((orig_class(&cfg), obf_class(&cfg), block_items(&cfg), 0u8..4), 1..=3)
+        .prop_map(|blocks| MapFile {
+            prelude: vec![],
+            blocks: blocks
+                .into_iter()
+                .map(|(orig, obf, mut items, mode)| {
+                    // concentrate the methods on very few obfuscated names so that one name owns hundreds of entries
+                    for (i, it) in items.iter_mut().enumerate() {
+                        if let Item::Method(m) = it {
+                            match mode {
+                                0 => m.obf = "a".to_string(),
+                                1 => m.obf = ["a", "b"][i % 2].to_string(),
+                                2 => m.obf = format!("m{}", i % 300),
+                                _ => {}
+                            }
+                        }
+                    }
+                    Block { orig, obf, items }
+                })
+                .collect(),
         })
         .boxed()
 }
